@@ -35,13 +35,20 @@ def main():
     try:
         sh(f'cp /repo/src/rsatoolbox/cengine/*.so /repo/src/rsatoolbox/cengine/similarity.c {wt}/src/rsatoolbox/cengine/')
         env = dict(os.environ, PYTHONPATH=f'{wt}/src')
-        demo_local = os.path.join(wt, f'_demo_{x}.py')
-        txt = open(demo).read().replace(wtname, wt)
-        open(demo_local, 'w').write(txt)
+        # the demo and every helper module the agent left next to it (shared oracles), with the worktree path rewritten
+        ddir = os.path.join(wt, '_out')
+        os.makedirs(ddir, exist_ok=True)
+        for fn in os.listdir(src):
+            if fn.endswith('.py'):
+                open(os.path.join(ddir, fn), 'w').write(open(os.path.join(src, fn)).read().replace(wtname, wt))
+        demo_local = os.path.join(ddir, f'demo_{x}.py')
         rc0, out0 = sh(f'{PY} {demo_local}', cwd=wt, env=env, timeout=1800)
         meta['demo_clean_exit'] = rc0
         rc, out = sh(f'git apply {diff}', cwd=wt)
+        if rc != 0:
+            rc, out = sh(f'git apply --3way {diff}', cwd=wt)
         assert rc == 0, 'patch does not apply: ' + out
+        _, patch_text = sh('git diff HEAD -- src', cwd=wt)
         rc1, out1 = sh(f'{PY} {demo_local}', cwd=wt, env=env, timeout=1800)
         meta['demo_changed_exit'] = rc1
         meta['demo_changed_tail'] = out1.strip().splitlines()[-6:]
@@ -67,8 +74,11 @@ def main():
         notes = os.path.join(src, 'notes.md')
         dst = os.path.join(VERIF, 'seeded', sid)
         os.makedirs(dst, exist_ok=True)
-        shutil.copy(diff, os.path.join(dst, 'patch.diff'))
-        shutil.copy(demo, os.path.join(dst, 'demo.py'))
+        open(os.path.join(dst, 'patch.diff'), 'w').write(patch_text if patch_text.endswith('\n') else patch_text + '\n')
+        open(os.path.join(dst, 'demo.py'), 'w').write(open(demo).read().replace(wtname, '<worktree>'))
+        for fn in os.listdir(src):
+            if fn.endswith('.py') and not re.match(r'(demo|equiv)_[A-Z]\.py$', fn) and not fn.startswith('equiv'):
+                open(os.path.join(dst, fn), 'w').write(open(os.path.join(src, fn)).read().replace(wtname, '<worktree>'))
         if os.path.exists(notes):
             shutil.copy(notes, os.path.join(dst, 'agent_notes.md'))
         meta['what_i_ran'] = [
